@@ -3,6 +3,7 @@ package html
 import (
 	"sort"
 	"strings"
+	"sync"
 
 	"github.com/elliotchance/gedcom/v39"
 	"github.com/elliotchance/gedcom/v39/html/core"
@@ -51,11 +52,17 @@ func NewPublisher(doc *gedcom.Document, options *PublishShowOptions) *Publisher 
 
 func (publisher *Publisher) Publish(fileWriter core.FileWriter, parallel int) (err error) {
 	files := publisher.Files(parallel)
+
+	// More than one worker can fail (a full disk fails every write).
+	errMutex := sync.Mutex{}
+
 	util.WorkerPool(parallel, func(_ int) {
 		for file := range files {
 			fileErr := fileWriter.WriteFile(file)
 			if fileErr != nil {
+				errMutex.Lock()
 				err = fileErr
+				errMutex.Unlock()
 				break
 			}
 		}
